@@ -345,3 +345,19 @@ package types
 //@   trusted
 //@   purefn
 //@   assigns nothing
+
+// ---- C09: signed headers ----
+// ASSUMED: the header hash is a function of the header object (headers are immutable once received).
+//@ func Header.Hash
+//@   trusted
+//@   purefn
+//@   assigns nothing
+
+// A signed header is well formed for a chain only if header and commit are present and basically valid, the header is
+// for that chain, and the commit is for this header (same height, block id hash equal to the header hash).
+//@ func SignedHeader.ValidateBasic
+//@   assigns nothing
+//@   ensures present: result == nil ==> (sh.Header != nil && sh.Commit != nil)
+//@   ensures chain: result == nil ==> sh.Header.ChainID == chainID
+//@   ensures height: result == nil ==> (sh.Header.Height >= 1 && sh.Commit.Height == sh.Header.Height && sh.Commit.Round >= 0 && len(sh.Commit.Signatures) > 0)
+//@   ensures binds: result == nil ==> sh.Commit.BlockID.Hash == Header.Hash(sh.Header)
